@@ -125,31 +125,92 @@ package dastard
 //@   ensures result == max(dsp.NPresamples, dsp.LastTrigger - dsp.stream.firstFrameIndex + dsp.NSamples)
 //@   modifies nothing
 
+// ---- C02: criteria over the absolute history (independent of how the stream is cut into blocks) ----
+// Val: the sample as the trigger code compares it (signed data shifted up by 2^15).
+//@ pred ValH(h intmap, sg bool, a int) := ite(sg, (h[a] + 32768) % 65536, h[a])
+//@ pred Val(s *DataStream, a int) := ValH(s.hist, s.signed, a)
+// The criteria are opaque functions of (history, settings, sample); their definitions are used by explicit instances only.
+//@ define EdgeCritF(h intmap, sg bool, rising bool, falling bool, level int, a int) bool := (rising && ValH(h, sg, a) + ValH(h, sg, a - 1) - ValH(h, sg, a - 2) - ValH(h, sg, a - 3) >= level) || (falling && ValH(h, sg, a) + ValH(h, sg, a - 1) - ValH(h, sg, a - 2) - ValH(h, sg, a - 3) <= 0 - level)
+//@ pred EdgeCrit(d *DataStreamProcessor, a int) := EdgeCritF(d.stream.hist, d.stream.signed, d.EdgeRising, d.EdgeFalling, d.EdgeLevel, a)
+//@ pred EdgeCritDef(d *DataStreamProcessor, a int) := EdgeCritF_def(d.stream.hist, d.stream.signed, d.EdgeRising, d.EdgeFalling, d.EdgeLevel, a)
+//@ define LevelCritF(h intmap, sg bool, rising bool, thr int, a int) bool := (rising && ValH(h, sg, a) >= thr && ValH(h, sg, a - 1) < thr) || (!rising && ValH(h, sg, a) <= thr && ValH(h, sg, a - 1) > thr)
+//@ pred LevelThr(d *DataStreamProcessor) := ite(d.stream.signed, (d.LevelLevel + 32768) % 65536, d.LevelLevel)
+//@ pred LevelCrit(d *DataStreamProcessor, a int) := LevelCritF(d.stream.hist, d.stream.signed, d.LevelRising, LevelThr(d), a)
+//@ pred LevelCritDef(d *DataStreamProcessor, a int) := LevelCritF_def(d.stream.hist, d.stream.signed, d.LevelRising, LevelThr(d), a)
+// Base: absolute index of the first sample in the window; ScanFrom/ScanTo: the absolute range one trigger cycle searches.
+//@ pred Base(d *DataStreamProcessor) := d.stream.samplesSeen - len(d.stream.rawData)
+//@ pred ScanFrom(d *DataStreamProcessor) := Base(d) + max(d.NPresamples, d.LastTrigger - d.stream.firstFrameIndex + d.NSamples)
+//@ pred ScanTo(d *DataStreamProcessor) := Base(d) + len(d.stream.rawData) + d.NPresamples - d.NSamples
+// TrigOK: the trigger settings are in the range the code handles (negating the edge level must not overflow).
+//@ pred TrigOK(d *DataStreamProcessor) := d.EdgeLevel > -2147483648
+// Cross-block ghost state: gfront = absolute index up to which the edge/level search has already run (or which
+// is covered by dead time) under the current settings; gemitted = LastTrigger is the frame of a trigger
+// emitted under the current settings.
+//@ ghost field DataStreamProcessor.gfront mathint
+//@ ghost field DataStreamProcessor.gemitted bool
+// LastAbs: absolute index of the sample LastTrigger names (frames and samples coincide: framesPerSample == 1).
+//@ pred LastAbs(d *DataStreamProcessor) := Base(d) + d.LastTrigger - d.stream.firstFrameIndex
+// ScanOK: the next trigger cycle resumes no later than where the previous one stopped -- any samples
+// in between lie in the dead time of the emitted trigger LastTrigger.
+//@ pred ScanOK(d *DataStreamProcessor) := Base(d) + d.NPresamples <= d.gfront && (d.gemitted || LastAbs(d) + d.NSamples <= d.gfront) && (d.gemitted ==> LastAbs(d) <= d.gfront)
+// Sound: every record of the list sits on a sample satisfying an enabled criterion (auto triggers may sit anywhere).
+//@ pred Sound(rs []*DataRecord, d *DataStreamProcessor) := forall p int :: {at(rs, p)} rs.off <= p && p < rs.off + len(rs) ==>
+//@        (d.EdgeTrigger && EdgeCrit(d, at(rs, p).abs)) || (d.LevelTrigger && LevelCrit(d, at(rs, p).abs)) || d.AutoTrigger
+// wit marks the witness index of an existential over list positions (always true; gives the solver a term to match).
+//@ ufunc wit(k int) bool
+//@ defaxiom wit_all: forall k int :: {wit(k)} wit(k)
+// DeadAfter(rs, d, from, a): sample a is the trigger, or lies in the one-record dead time, of one of rs[from:].
+//@ pred DeadAfter(rs []*DataRecord, d *DataStreamProcessor, from int, a int) := exists k int :: {wit(k)} wit(k) && from <= k && k < len(rs) && rs[k].abs <= a && a <= rs[k].abs + d.NSamples
+// Contains(rs, qs): every record of the list qs (as it was on entry) is still in rs.
+//@ pred Contains(rs []*DataRecord, qs []*DataRecord) := forall k int :: {wit(k)} 0 <= k && k < len(qs) ==> (exists m int :: {wit(m)} wit(m) && 0 <= m && m < len(rs) && rs[m] == old(qs[k]))
+// RawIsVal: the (possibly shifted copy of the) window the pass looks at holds Val of the absolute history.
+//@ pred RawIsVal(raw []RawType, d *DataStreamProcessor) := len(raw) == len(d.stream.rawData) && allocated(raw) && (forall p int :: {at(raw, p)} raw.off <= p && p < raw.off + len(raw) ==> at(raw, p) == Val(d.stream, Base(d) + p - raw.off))
+
 //@ func (*DataStreamProcessor).edgeTriggerComputeAppend
 //@   props C01 C02
-//@   requires WFStream(dsp.stream) && LenOK(dsp)
-//@   requires RecsOK(records, dsp, 0) && RecsInWin(records, dsp) && RecsDistinct(records)
+//@   uses wit_all
+//@   requires WFStream(dsp.stream) && LenOK(dsp) && TrigOK(dsp)
+//@   requires RecsOK(records, dsp, 0) && RecsInWin(records, dsp) && RecsDistinct(records) && Sound(records, dsp)
 //@   requires LabelsOK(dsp.stream) ==> RecsLabelled(records, dsp, 0)
 //@   ensures grows: len(result) >= len(records) && (result.arr == records.arr || fresh(result))
 //@   ensures excerpts: RecsOK(result, dsp, 0)
 //@   ensures inwin: RecsInWin(result, dsp)
 //@   ensures distinct: RecsDistinct(result)
 //@   ensures labels: LabelsOK(dsp.stream) ==> RecsLabelled(result, dsp, 0)
+//@   ensures sound: Sound(result, dsp)
+//@   ensures off: !dsp.EdgeTrigger ==> result == records
+//@   ensures kept: forall k int :: {result[k]} 0 <= k && k < len(records) ==> result[k] == old(records[k])
+//@   ensures found: dsp.EdgeTrigger ==> (forall k int :: {result[k]} len(records) <= k && k < len(result) ==> EdgeCrit(dsp, result[k].abs) && ScanFrom(dsp) <= result[k].abs && result[k].abs < ScanTo(dsp))
+//@   ensures spaced: forall j int, k int :: {result[j], result[k]} len(records) <= j && j < k && k < len(result) ==> result[j].abs + dsp.NSamples < result[k].abs
+//@   ensures complete: dsp.EdgeTrigger ==> (forall a int :: {EdgeCrit(dsp, a)} ScanFrom(dsp) <= a && a < ScanTo(dsp) && EdgeCrit(dsp, a) ==> DeadAfter(result, dsp, len(records), a))
 //@   modifies records[*]
 //@   loop 1
-//@     invariant 0 <= i && i <= ndata && len(raw) == ndata && fresh(raw) && ndata == len(dsp.stream.rawData) && records == old(records)
+//@     invariant 0 <= i && i <= ndata && len(raw) == ndata && fresh(raw) && allocated(raw) && ndata == len(dsp.stream.rawData) && records == old(records)
+//@     invariant shifted: forall p int :: {at(raw, p)} raw.off <= p && p < raw.off + i ==> at(raw, p) == (dsp.stream.rawData[p - raw.off] + 32768) % 65536
+//@     invariant rest: forall p int :: {at(raw, p)} raw.off + i <= p && p < raw.off + ndata ==> at(raw, p) == dsp.stream.rawData[p - raw.off]
 //@     modifies raw[*]
 //@   loop 2
-//@     invariant dsp.NPresamples <= i && len(raw) == ndata && ndata == len(dsp.stream.rawData) && len(records) >= len(old(records))
+//@     invariant dsp.NPresamples <= i && len(raw) == ndata && ndata == len(dsp.stream.rawData) && len(records) >= len(old(records)) && wit(len(records) - 1)
+//@     invariant start: Base(dsp) + i >= ScanFrom(dsp)
+//@     invariant raw: RawIsVal(raw, dsp)
 //@     invariant arr: records.arr == old(records.arr) || fresh(records)
 //@     invariant excerpts: RecsOK(records, dsp, 0)
 //@     invariant inwin: RecsInWin(records, dsp)
 //@     invariant distinct: RecsDistinct(records)
 //@     invariant labels: LabelsOK(dsp.stream) ==> RecsLabelled(records, dsp, 0)
+//@     invariant sound: Sound(records, dsp)
+//@     invariant kept: forall k int :: {records[k]} 0 <= k && k < len(old(records)) ==> records[k] == old(records[k])
+//@     invariant found: forall k int :: {records[k]} len(old(records)) <= k && k < len(records) ==> EdgeCrit(dsp, records[k].abs) && ScanFrom(dsp) <= records[k].abs && records[k].abs < ScanTo(dsp) && records[k].abs + dsp.NSamples < Base(dsp) + i
+//@     invariant spaced: forall j int, k int :: {records[j], records[k]} len(old(records)) <= j && j < k && k < len(records) ==> records[j].abs + dsp.NSamples < records[k].abs
+//@     invariant complete: forall a int :: {EdgeCrit(dsp, a)} ScanFrom(dsp) <= a && a < Base(dsp) + i && EdgeCrit(dsp, a) ==> DeadAfter(records, dsp, len(old(records)), a)
+//@     apply EdgeCritDef(dsp, Base(dsp) + i)
+//@     hint seed: wit(len(records) - 1)
 
 // sort.Sort on a record list permutes it (trusted library contract).
 //@ extern func sort.Sort
 //@   fresh perm intmap
+//@   fresh inv intmap
+//@   ensures onto: typeis(data, RecordSlice) ==> (forall k int :: {wit(k)} 0 <= k && k < len(unbox(data, RecordSlice)) ==> 0 <= inv[k] && inv[k] < len(unbox(data, RecordSlice)) && wit(inv[k]) && unbox(data, RecordSlice)[inv[k]] == old(unbox(data, RecordSlice)[k]))
 //@   ensures typeis(data, RecordSlice) ==> len(unbox(data, RecordSlice)) == old(len(unbox(data, RecordSlice)))
 //@   ensures typeis(data, RecordSlice) ==> (forall p int :: {at(unbox(data, RecordSlice), p)} unbox(data, RecordSlice).off <= p && p < unbox(data, RecordSlice).off + len(unbox(data, RecordSlice)) ==>
 //@        unbox(data, RecordSlice).off <= perm[p] && perm[p] < unbox(data, RecordSlice).off + len(unbox(data, RecordSlice)) && at(unbox(data, RecordSlice), p) == oldat(unbox(data, RecordSlice), perm[p]))
@@ -167,31 +228,43 @@ package dastard
 
 //@ func (*DataStreamProcessor).levelTriggerComputeAppend
 //@   props C01 C02
-//@   requires WFStream(dsp.stream) && LenOK(dsp)
-//@   requires RecsOK(records, dsp, 0) && RecsInWin(records, dsp) && RecsDistinct(records)
+//@   uses wit_all
+//@   requires WFStream(dsp.stream) && LenOK(dsp) && TrigOK(dsp)
+//@   requires RecsOK(records, dsp, 0) && RecsInWin(records, dsp) && RecsDistinct(records) && Sound(records, dsp)
 //@   requires LabelsOK(dsp.stream) ==> RecsLabelled(records, dsp, 0)
 //@   ensures grows: len(result) >= len(records) && (result.arr == records.arr || fresh(result))
 //@   ensures excerpts: RecsOK(result, dsp, 0)
 //@   ensures inwin: RecsInWin(result, dsp)
 //@   ensures distinct: RecsDistinct(result)
 //@   ensures labels: LabelsOK(dsp.stream) ==> RecsLabelled(result, dsp, 0)
+//@   ensures sound: Sound(result, dsp)
+//@   ensures contains: Contains(result, records)
 //@   modifies records[*]
 //@   loop 1
-//@     invariant 0 <= i && i <= ndata && len(raw) == ndata && fresh(raw) && ndata == len(dsp.stream.rawData) && records == old(records)
+//@     invariant 0 <= i && i <= ndata && len(raw) == ndata && fresh(raw) && allocated(raw) && ndata == len(dsp.stream.rawData) && records == old(records) && threshold == LevelThr(dsp)
+//@     invariant shifted: forall p int :: {at(raw, p)} raw.off <= p && p < raw.off + i ==> at(raw, p) == (dsp.stream.rawData[p - raw.off] + 32768) % 65536
+//@     invariant rest: forall p int :: {at(raw, p)} raw.off + i <= p && p < raw.off + ndata ==> at(raw, p) == dsp.stream.rawData[p - raw.off]
 //@     modifies raw[*]
 //@   loop 2
-//@     invariant dsp.NPresamples <= i && len(raw) == ndata && ndata == len(dsp.stream.rawData) && len(records) >= len(old(records))
+//@     invariant dsp.NPresamples <= i && len(raw) == ndata && ndata == len(dsp.stream.rawData) && len(records) >= len(old(records)) && threshold == LevelThr(dsp)
 //@     invariant idx: 0 <= idxNextTrig && nFoundTrigs == len(old(records)) && nextFoundTrig >= dsp.NPresamples
+//@     invariant raw: RawIsVal(raw, dsp)
 //@     invariant arr: records.arr == old(records.arr) || fresh(records)
 //@     invariant excerpts: RecsOK(records, dsp, 0)
 //@     invariant inwin: RecsInWin(records, dsp)
 //@     invariant distinct: RecsDistinct(records)
 //@     invariant labels: LabelsOK(dsp.stream) ==> RecsLabelled(records, dsp, 0)
+//@     invariant sound: Sound(records, dsp)
+//@     invariant kept: forall k int :: {records[k]} 0 <= k && k < len(old(records)) ==> records[k] == old(records[k])
+//@     apply LevelCritDef(dsp, Base(dsp) + i)
 
 //@ func (*DataStreamProcessor).autoTriggerComputeAppend
 //@   props C01 C02
+//@   uses wit_all
 //@   requires WFStream(dsp.stream) && LenOK(dsp)
-//@   requires RecsOK(records, dsp, 0) && RecsInWin(records, dsp) && RecsDistinct(records)
+//@   requires RecsOK(records, dsp, 0) && RecsInWin(records, dsp) && RecsDistinct(records) && Sound(records, dsp)
+//@   ensures sound: Sound(result, dsp)
+//@   ensures contains: Contains(result, records)
 //@   requires LabelsOK(dsp.stream) ==> RecsLabelled(records, dsp, 0)
 //@   ensures grows: len(result) >= len(records) && (result.arr == records.arr || fresh(result))
 //@   ensures excerpts: RecsOK(result, dsp, 0)
@@ -202,6 +275,8 @@ package dastard
 //@   loop 1
 //@     invariant npre == dsp.NPresamples && nsamp == dsp.NSamples && nextPotentialTrig >= npre && ndata == len(dsp.stream.rawData) && len(records) >= len(old(records))
 //@     invariant idx: 0 <= idxNextTrig && nFoundTrigs == len(old(records)) && autoDelaySamples >= nsamp && nextFoundTrig >= dsp.NPresamples
+//@     invariant sound: Sound(records, dsp) && dsp.AutoTrigger
+//@     invariant kept: forall k int :: {records[k]} 0 <= k && k < len(old(records)) ==> records[k] == old(records[k])
 //@     invariant arr: records.arr == old(records.arr) || fresh(records)
 //@     invariant excerpts: RecsOK(records, dsp, 0)
 //@     invariant inwin: RecsInWin(records, dsp)
@@ -241,16 +316,24 @@ package dastard
 
 //@ func (*DataStreamProcessor).TriggerData
 //@   props C01 C02 C08
-//@   requires WFStream(dsp.stream) && LenOK(dsp) && EMTValid(dsp)
+//@   uses wit_all
+//@   requires WFStream(dsp.stream) && LenOK(dsp) && EMTValid(dsp) && TrigOK(dsp)
+//@   ensures sound: !dsp.EdgeMulti ==> Sound(records, dsp)
+//@   ensures edgecomplete: !dsp.EdgeMulti && dsp.EdgeTrigger ==> (forall a int :: {EdgeCrit(dsp, a)} old(ScanFrom(dsp)) <= a && a < ScanTo(dsp) && EdgeCrit(dsp, a) ==> DeadAfter(records, dsp, 0, a))
+//@   ensures frontier: !dsp.EdgeMulti ==> dsp.gfront == max(old(dsp.gfront), ScanTo(dsp)) && (old(ScanOK(dsp)) ==> ScanOK(dsp))
+//@   ghost exit: dsp.gfront := ite(dsp.EdgeMulti, old(dsp.gfront), max(old(dsp.gfront), ScanTo(dsp)))
+//@   ghost exit: dsp.gemitted := old(dsp.gemitted) || len(records) > 0
 //@   ensures excerpts: RecsExcerpt(records, dsp)
 //@   ensures fixedlen: !dsp.EdgeMulti ==> RecsOK(records, dsp, 0) && RecsInWin(records, dsp)
 //@   ensures analyzable: RecsDistinct(records) && (forall p int :: {at(records, p)} records.off <= p && p < records.off + len(records) ==> 1 <= at(records, p).presamples && at(records, p).presamples < len(at(records, p).data) && len(at(records, p).data) < 1000000000)
 //@   ensures labels: LabelsOK(dsp.stream) ==> RecsLabelled(records, dsp, 0)
 //@   ensures stream: unchanged(dsp.stream.rawData, dsp.stream.samplesSeen, dsp.stream.firstFrameIndex, dsp.stream.firstTime, dsp.stream.framesPerSample, dsp.stream.framePeriod, dsp.NSamples, dsp.NPresamples)
 //@   ensures triglist: len(dsp.lastTrigList.frames) == len(records) && (forall k int :: {dsp.lastTrigList.frames[k]} 0 <= k && k < len(records) ==> dsp.lastTrigList.frames[k] == records[k].trigFrame)
-//@   modifies dsp.LastTrigger, dsp.lastTrigList.*, dsp.EMTState.nextFrameIndexToInspect, dsp.EMTState.t, dsp.EMTState.u, dsp.EMTState.v, dsp.EMTState.iFirstCheckSentinel
+//@   modifies dsp.LastTrigger, dsp.lastTrigList.*, dsp.EMTState.nextFrameIndexToInspect, dsp.EMTState.t, dsp.EMTState.u, dsp.EMTState.v, dsp.EMTState.iFirstCheckSentinel, dsp.gfront, dsp.gemitted
 //@   loop 1
 //@     invariant -1 <= rangeindex && rangeindex <= len(records) - 1 && len(trigList.frames) == len(records) && fresh(trigList.frames)
+//@     invariant c02: !dsp.EdgeMulti ==> Sound(records, dsp) && RecsOK(records, dsp, 0) && RecsInWin(records, dsp)
+//@     invariant edgecomplete: !dsp.EdgeMulti && dsp.EdgeTrigger ==> (forall a int :: {EdgeCrit(dsp, a)} Base(dsp) + max(dsp.NPresamples, old(dsp.LastTrigger) - dsp.stream.firstFrameIndex + dsp.NSamples) <= a && a < ScanTo(dsp) && EdgeCrit(dsp, a) ==> DeadAfter(records, dsp, 0, a))
 //@     invariant excerpts: RecsExcerpt(records, dsp)
 //@     invariant analyzable: RecsDistinct(records) && (forall p int :: {at(records, p)} records.off <= p && p < records.off + len(records) ==> 1 <= at(records, p).presamples && at(records, p).presamples < len(at(records, p).data) && len(at(records, p).data) < 1000000000)
 //@     invariant done: forall k int :: {trigList.frames[k]} 0 <= k && k <= rangeindex ==> trigList.frames[k] == records[k].trigFrame
@@ -310,6 +393,7 @@ package dastard
 //@   ensures kept: len(dsp.stream.rawData) == min(old(len(dsp.stream.rawData)), 2 * dsp.EMTState.nsamp + 10)
 //@   ensures stamps: dsp.stream.firstFrameIndex == old(dsp.stream.firstFrameIndex) + (old(len(dsp.stream.rawData)) - len(dsp.stream.rawData)) * dsp.stream.framesPerSample
 //@   ensures labels: old(LabelsOK(dsp.stream)) ==> LabelsOK(dsp.stream)
+//@   ensures scan: old(ScanOK(dsp)) && EMTValid(dsp) && dsp.stream.framesPerSample == 1 && dsp.gfront >= old(ScanTo(dsp)) && dsp.NPresamples >= 0 ==> ScanOK(dsp)
 //@   modifies dsp.stream.rawData, dsp.stream.rawData[*], dsp.stream.firstFrameIndex, dsp.stream.firstTime
 
 // OffFits: while an OFF writer is installed the loaded projectors still have the number of bases the file was opened with.
@@ -321,8 +405,9 @@ package dastard
 // trimmed here (the secondary records of this cycle are still to be cut from the same window).
 //@ func (*DataStreamProcessor).processSegment
 //@   props C01 C02
-//@   requires WFStream(dsp.stream) && LenOK(dsp) && EMTValid(dsp) && !dsp.Decimate
+//@   requires WFStream(dsp.stream) && LenOK(dsp) && EMTValid(dsp) && !dsp.Decimate && TrigOK(dsp)
 //@   requires segment != nil && addr(dsp.stream.DataSegment) != segment
+//@   ensures scan: !dsp.EdgeMulti && old(ScanOK(dsp)) && old(Contig(dsp.stream, segment)) && old(len(dsp.stream.rawData)) > 0 ==> ScanOK(dsp)
 //@   requires writers: !IOFaults() && !QueueFull() && PubOK(dsp.DataPublisher) && OffFits(dsp) && ProjFits(dsp)
 //@   ensures window: WFStream(dsp.stream) && dsp.stream.samplesSeen == old(dsp.stream.samplesSeen) + old(len(segment.rawData)) && len(dsp.stream.rawData) == old(len(dsp.stream.rawData)) + old(len(segment.rawData))
 //@   ensures history: forall a int :: {dsp.stream.hist[a]} a < old(dsp.stream.samplesSeen) ==> dsp.stream.hist[a] == old(dsp.stream.hist[a])
@@ -330,7 +415,7 @@ package dastard
 //@   ensures labels: old(Contig(dsp.stream, segment)) ==> LabelsOK(dsp.stream)
 //@   ensures lengths: unchanged(dsp.NSamples, dsp.NPresamples)
 //@   ensures writers: PubOK(dsp.DataPublisher) && OffFits(dsp)
-//@   modifies dsp.stream.*, dsp.stream.hist, dsp.stream.gframe, dsp.stream.gtime, dsp.stream.rawData[*], dsp.LastTrigger, dsp.lastTrigList.*, dsp.EMTState.nextFrameIndexToInspect, dsp.EMTState.t, dsp.EMTState.u, dsp.EMTState.v, dsp.EMTState.iFirstCheckSentinel, dsp.numberWritten,
+//@   modifies dsp.gfront, dsp.gemitted, dsp.stream.*, dsp.stream.hist, dsp.stream.gframe, dsp.stream.gtime, dsp.stream.rawData[*], dsp.LastTrigger, dsp.lastTrigList.*, dsp.EMTState.nextFrameIndexToInspect, dsp.EMTState.t, dsp.EMTState.u, dsp.EMTState.v, dsp.EMTState.iFirstCheckSentinel, dsp.numberWritten,
 //@            any(ljh.Writer).HeaderWritten, any(ljh.Writer).file, any(ljh.Writer).writer, any(ljh.Writer).RecordsWritten,
 //@            any(ljh.Writer3).HeaderWritten, any(ljh.Writer3).file, any(ljh.Writer3).writer, any(ljh.Writer3).RecordsWritten,
 //@            any(off.Writer).headerWritten, any(off.Writer).file, any(off.Writer).writer, any(off.Writer).recordsWritten,
@@ -350,3 +435,40 @@ package dastard
 //@            any(off.Writer).headerWritten, any(off.Writer).file, any(off.Writer).writer, any(off.Writer).recordsWritten,
 //@            any(asyncbufio.Writer).n, any(asyncbufio.Writer).acc, any(asyncbufio.Writer).items, any(asyncbufio.Writer).mark,
 //@            any(DataRecord).pretrigMean, any(DataRecord).pretrigDelta, any(DataRecord).pulseAverage, any(DataRecord).pulseRMS, any(DataRecord).peakValue, any(DataRecord).modelCoefs, any(DataRecord).residualStdDev
+
+// ---- reconfiguration (C02): the trigger search restarts no later than where it stopped ----
+// After new trigger settings the last trigger is forgotten (LastTrigger = 0): the next cycle searches the
+// retained window again from its first usable sample.  Claimed when the stream's frame counter is at least one
+// record length (a frame counter that starts at 0 makes "frame 0" look like a trigger for the first record length).
+//@ func (*DataStreamProcessor).ConfigureTrigger
+//@   props C02 C08
+//@   requires dsp.NSamples < 1000000000 && dsp.NPresamples < 1000000000 && dsp.NSamples > -1000000000 && dsp.NPresamples > -1000000000
+//@   ensures settings: dsp.EdgeTrigger == state.EdgeTrigger && dsp.EdgeRising == state.EdgeRising && dsp.EdgeFalling == state.EdgeFalling && dsp.EdgeLevel == state.EdgeLevel
+//@        && dsp.LevelTrigger == state.LevelTrigger && dsp.LevelRising == state.LevelRising && dsp.LevelLevel == state.LevelLevel
+//@        && dsp.AutoTrigger == state.AutoTrigger && dsp.AutoDelay == state.AutoDelay && dsp.AutoVetoRange == state.AutoVetoRange && dsp.EdgeMulti == state.EdgeMulti
+//@   ensures emt: EMTValid(dsp)
+//@   ensures rescan: old(ScanOK(dsp)) && dsp.stream.firstFrameIndex >= dsp.NSamples - dsp.NPresamples ==> ScanFrom(dsp) <= dsp.gfront && ScanOK(dsp)
+//@   ensures kept: unchanged(dsp.NSamples, dsp.NPresamples, dsp.gfront, dsp.stream.rawData, dsp.stream.samplesSeen, dsp.stream.firstFrameIndex)
+//@   modifies dsp.TriggerState.*, dsp.EMTState.*, dsp.EMTBackwardCompatibleRPCFields.*, dsp.LastTrigger, dsp.gemitted
+//@   ghost exit: dsp.gemitted := false
+
+// After a change of record lengths the search restarts at the first sample of the retained window that has
+// enough pre-trigger samples (samples delivered earlier and closer to the window start cannot get a record).
+//@ func (*DataStreamProcessor).ConfigurePulseLengths
+//@   props C02 C08
+//@   requires nsamp < 1000000000 && npre < 1000000000 && nsamp > -1000000000 && npre > -1000000000
+//@   ensures lengths: dsp.NSamples == nsamp && dsp.NPresamples == npre
+//@   ensures emt: EMTValid(dsp)
+//@   ensures rescan: old(ScanOK(dsp)) && npre >= 0 && (dsp.gemitted || dsp.stream.firstFrameIndex >= dsp.LastTrigger + nsamp - npre) ==> ScanOK(dsp)
+//@   ensures kept: unchanged(dsp.LastTrigger, dsp.gemitted, dsp.stream.rawData, dsp.stream.samplesSeen, dsp.stream.firstFrameIndex)
+//@   modifies dsp.NSamples, dsp.NPresamples, dsp.EMTState.*, dsp.gfront, dsp.projectors, dsp.basis, dsp.modelDescription
+//@   ghost exit: dsp.gfront := max(old(dsp.gfront), Base(dsp) + npre)
+
+//@ func (*EMTState).reset
+//@   props C02 C08
+//@   ensures s.nextFrameIndexToInspect == 0 && s.t == 0 && s.u == 0 && s.v == 0 && !s.iFirstCheckSentinel
+//@   modifies s.nextFrameIndexToInspect, s.t, s.u, s.v, s.iFirstCheckSentinel
+
+//@ func (*DataStreamProcessor).removeProjectorsBasis
+//@   props C02
+//@   modifies dsp.projectors, dsp.basis, dsp.modelDescription
